@@ -333,7 +333,7 @@ def run(ctx, report: Report) -> None:
 
 
     # ---- R5 ----------------------------------------------------------------------------------------------
-    r5 = report.rule('C16-R5', 'the shortcut functions take their positional arguments in the order Beautiful Soup passes them', floor=5)
+    r5 = report.rule('C16-R5', 'the shortcut functions take their positional arguments in the order Beautiful Soup passes them', floor=2)
     bs4_call_order_rule(ctx, r5, facts)
 
     # ---- R6 ----------------------------------------------------------------------------------------------
